@@ -28,15 +28,21 @@ fn ulp_of(x: f64, f32_: bool) -> f64 {
 
 /// Weights of a weighted spec as f64 (for the non-zero-weight clause).
 fn weight_is_zero(spec: &DistSpec, idx: usize) -> Option<bool> {
-    if !spec.n.is_empty() {
-        spec.n.get(idx).map(|&w| w == 0)
+    if spec.wty.map(|w| w.is_float()).unwrap_or(false) {
+        // float trees reached through update histories may carry rounding residue (the
+        // type's documentation warns about it): only integer weights are judged
+        None
     } else {
-        spec.p.get(idx).map(|&w| w == 0.0)
+        spec.n.get(idx).map(|&w| w == 0)
     }
 }
 
 pub fn weighted_len(spec: &DistSpec) -> usize {
-    spec.n.len().max(spec.p.len())
+    if spec.wty.map(|w| w.is_float()).unwrap_or(false) {
+        spec.p.len()
+    } else {
+        spec.n.len()
+    }
 }
 
 /// `None` if the output satisfies the support predicate of C03, otherwise
